@@ -177,6 +177,12 @@ func aggCase(r *hlib.Rng, s *hlib.Suite) {
 			as = fmt.Sprintf("agg%d", i)
 			dstName = as
 		}
+		if r.Chance(1, 7) {
+			// Aggregate takes the new name as it is, so the result may carry a name that no other
+			// operation would accept as a destination
+			as = []string{"$total", "'q'", "\"q\"", "$x"}[r.Intn(4)] + fmt.Sprint(i)
+			dstName = as
+		}
 		used[dstName] = true
 		vals := colValues(qf, c)
 		pos := map[uint32]int{}
@@ -410,7 +416,22 @@ func aggCase(r *hlib.Rng, s *hlib.Suite) {
 			return
 		}
 		target := od.Columns[len(od.Columns)-1]
-		if target.Kind != "int" || hasDupNames(od) {
+		if hasDupNames(od) {
+			return
+		}
+		// replacing ANY column (key columns included) by a copy of another one
+		if len(od.Columns) >= 2 {
+			ti := r.Intn(len(od.Columns))
+			si := (ti + 1 + r.Intn(len(od.Columns)-1)) % len(od.Columns)
+			dstN, srcN := od.Columns[ti].Name, od.Columns[si].Name
+			desc3 := map[string]interface{}{"op": "copy", "dst": dstN, "src": srcN,
+				"derivation": append(append([]string{}, hist...), fmt.Sprintf("groupby(%v)+aggregate(%v)", keyCols, descs)), "props": []string{"C06", "C08", "C10", "C04", "C07"}}
+			if od3, ok := runOp(s, out, desc3, func() qframe.QFrame { return out.Copy(dstN, srcN) }); ok {
+				s.Count("aggregate-then-copy")
+				s.Add(fmt.Sprintf("FCopy %s %s %s %s", coqFrame(od), hlib.Str(dstN), hlib.Str(srcN), coqFrame(od3)), desc3, true)
+			}
+		}
+		if target.Kind != "int" {
 			return
 		}
 		rec := []string{}
